@@ -760,12 +760,18 @@ EXPORT errno_t _wcsnorm_reorder_s_chk(wchar_t *restrict dest, rsize_t dmax,
     wchar_t *orig_dest = dest;
     rsize_t orig_dmax = dmax;
 
+    CHK_DEST_NULL("wcsnorm_reorder_s")
+    CHK_DMAX_ZERO("wcsnorm_reorder_s")
     if (destbos == BOS_UNKNOWN) {
         CHK_DMAX_MAX("wcsnorm_reorder_s", RSIZE_MAX_WSTR)
         BND_CHK_PTR_BOUNDS(dest, dmax * sizeof(wchar_t));
     } else {
         const size_t destsz = dmax * sizeof(wchar_t);
         CHK_DESTW_OVR_CLEAR("wcsnorm_reorder_s", destsz, destbos)
+    }
+    if (unlikely(src == NULL)) {
+        handle_werror(dest, dmax, "wcsnorm_reorder_s: src is null", ESNULLP);
+        return RCNEGATE(ESNULLP);
     }
 
     while (p < e) {
@@ -900,7 +906,7 @@ EXPORT errno_t _wcsnorm_compose_s_chk(wchar_t *restrict dest, rsize_t dmax,
 #endif
 {
     wchar_t *p = (wchar_t *)src;
-    const wchar_t *e = p + *lenp;
+    const wchar_t *e;
     uint32_t cpS = 0;       /* starter code point */
     bool valid_cpS = false; /* if false, cpS isn't initialized yet */
     uint8_t pre_cc = 0;
@@ -922,15 +928,15 @@ EXPORT errno_t _wcsnorm_compose_s_chk(wchar_t *restrict dest, rsize_t dmax,
         return RCNEGATE(ESNULLP);
     }
     if (unlikely(lenp == NULL)) {
-        handle_werror(dest, destbos / sizeof(wchar_t),
-                      "wcsnorm_compose_s: lenp is null", ESNULLP);
+        invoke_safe_str_constraint_handler("wcsnorm_compose_s: lenp is null",
+                                           dest, ESNULLP);
         return RCNEGATE(ESNULLP);
     }
     if (destbos == BOS_UNKNOWN) {
         if (unlikely(dmax > RSIZE_MAX_WSTR)) {
             *lenp = 0;
-            handle_werror(dest, RSIZE_MAX_WSTR,
-                          "wcsnorm_compose_s: dmax exceeds max", ESLEMAX);
+            invoke_safe_str_constraint_handler(
+                "wcsnorm_compose_s: dmax exceeds max", dest, ESLEMAX);
             return ESLEMAX;
         }
         BND_CHK_PTR_BOUNDS(dest, dmax * sizeof(wchar_t));
@@ -945,10 +951,10 @@ EXPORT errno_t _wcsnorm_compose_s_chk(wchar_t *restrict dest, rsize_t dmax,
     }
     if (unlikely(src == NULL)) {
         *lenp = 0;
-        handle_werror(dest, destbos / sizeof(wchar_t),
-                      "wcsnorm_compose_s: src is null", ESNULLP);
+        handle_werror(dest, dmax, "wcsnorm_compose_s: src is null", ESNULLP);
         return RCNEGATE(ESNULLP);
     }
+    e = p + *lenp;
 
     while (p < e) {
         uint8_t cur_cc;
